@@ -397,3 +397,20 @@ pub(crate) fn note_implied_mode(mode: u32) {
 pub fn intra_mode_default() -> u32 {
     crate::vp8::verif_intra_mode_default()
 }
+
+/// luma border bookkeeping in the same log: `[6, corner, above x16, above-right x4, left x16]`
+/// (the workspace border a macroblock is predicted from) and `[7, bottom row x16, right column
+/// x16]` (of the reconstructed macroblock, before loop filtering)
+pub(crate) fn note_luma_border(ws: &[u8], stride: usize) {
+    let mut l = CTX_LOG.lock().unwrap();
+    l.push(6);
+    l.push(u32::from(ws[0]));
+    l.extend(ws[1..21].iter().map(|&b| u32::from(b)));
+    l.extend((0..16).map(|i| u32::from(ws[(i + 1) * stride])));
+}
+pub(crate) fn note_luma_recon(ws: &[u8], stride: usize) {
+    let mut l = CTX_LOG.lock().unwrap();
+    l.push(7);
+    l.extend(ws[16 * stride + 1..][..16].iter().map(|&b| u32::from(b)));
+    l.extend((0..16).map(|i| u32::from(ws[(i + 1) * stride + 16])));
+}
